@@ -487,7 +487,12 @@ class union_generator(_composite_generator_base):
             shown = discriminator_name_or_value
             if isinstance(shown, (int, long)) and abs(shown) >= (1 << 128):
                 shown = "a number of %d bits" % shown.bit_length()
-            raise ProphyError("unknown discriminator: {!r}".format(shown))
+            try:
+                shown = repr(shown)
+            except ValueError:
+                """ repr of a Fraction of thousands of digits exceeds the interpreter's digit limit """
+                shown = "a %s" % type(shown).__name__
+            raise ProphyError("unknown discriminator: {}".format(shown))
 
         setattr(cls, "discriminator", property(getter, setter))
 
